@@ -6,9 +6,18 @@ The detector is abstracted by its interface: `make_text_region_text` consumes on
 `(do_merge, merge_word)` answer of `determine_word_break` per line pair, so the model takes an
 arbitrary `decide : prev_words → curr_words → Res Decision`.  `C17.determine cc det B` is one instance.
 The convex hull of `merge_lines` is a parameter (C09's contract).
+
+Regenerated from the source on every run (Generated/C16.lean, harness/props/c16.py `generated_c16`), not
+written here: the four `„` literals of `make_text_region_text`, the blank of the test
+`line_text[-2] != ' '` in `make_line_text`, the hyphen and the PMI threshold of
+`line_ends_with_word_break`, the defaults of `make_line_text`, `make_text_region_text`, `merge_lines`.
+The blanks that `make_line_text` ADDS (`line_text + ' '`, `f' {line_text[-1]} '`) are written here and tied
+to the regenerated ones by the obligations of Lemmas/C16Consts.lean (the statement itself says "exactly
+one space").  `string.punctuation` is a constant of CPython, not of the code under verification.
 -/
 import PagexmlModel.Basic.Err
 import PagexmlModel.Model.C17
+import PagexmlModel.Generated.C16
 
 namespace Pagexml.C16
 open Pagexml.C17
@@ -30,8 +39,9 @@ structure Range where
 
 abbrev Decide := List Str → List Str → Res Decision
 
-/-- the break character with special prefix treatment in `make_text_region_text` -/
-def lowQuote : Char := '„'
+/-- the character with special prefix treatment in `make_text_region_text`: the `S` of
+    `prev_line_text.startswith(S)`, cut off when the flag is set -/
+def lowQuote : Char := Generated.C16.quoteStrip
 
 /-- `len(line_text) >= 2 and line_text[-1] in B and line_text[-2] in B` -/
 def doubledBreak (B : BreakSet) (text : Str) : Res Bool :=
@@ -55,7 +65,7 @@ def mergeStripTest (B : BreakSet) (l : Char) (endWord : Str) (mergeWord : Option
 def detachTest (B : BreakSet) (lineText : Str) (l : Char) : Res Bool :=
   if B l && decide (lineText.length ≥ 2) then do
     let l2 ← pyLast2 lineText
-    pure (l2 != ' ')
+    pure ([l2] != Generated.C16.detachBlank)
   else pure false
 
 /-- `make_line_text(line, do_merge, end_word, merge_word, word_break_chars)` on `line.text = text` -/
@@ -113,7 +123,8 @@ def loopStep (cc : CharClass) (B : BreakSet) (decide : Decide) (st : LoopState) 
          let endWord ← endWordPy st.prevWords
          let plt ← makeLineText B prevText doMerge endWord mergeWord
          let plt := if st.removePrefix && [lowQuote].isPrefixOf plt then plt.tail else plt
-         let rp := B lowQuote && [lowQuote].isSuffixOf endWord && [lowQuote].isPrefixOf currText
+         let rp := B Generated.C16.quoteTested && [Generated.C16.quoteEnd].isSuffixOf endWord
+                     && [Generated.C16.quoteStart].isPrefixOf currText
          pure (currWords, plt, rp)
        | none => pure (currWords, [], st.removePrefix))
   let range := makeLineRange st.text st.prevLine (some prevLineText)
@@ -168,6 +179,22 @@ def mergeLines {γ : Type} (hull : List γ → Res γ) (cc : CharClass) (removeW
   let _ ← pyHead lines
   return (coords, text)
 
+/-! ### the functions called without their optional arguments: the defaults of the source apply -/
+
+/-- `make_line_text(line, do_merge, end_word, merge_word)` / `…(…, word_break_chars)` -/
+def makeLineTextD (B : Option BreakSet) (text : Str) (doMerge : Bool) (endWord : Str) (mergeWord : Option Str) :
+    Res Str :=
+  makeLineText (B.getD (breakOf Generated.C16.defaultBreakMakeLineText)) text doMerge endWord mergeWord
+
+/-- the `word_break_chars` of `make_text_region_text(lines)` / `…(lines, word_break_chars)` -/
+def makeTextBreak (B : Option BreakSet) : BreakSet := B.getD (breakOf Generated.C16.defaultBreakMakeText)
+
+/-- `merge_lines(lines)` / `merge_lines(lines, remove_word_break, word_break_char)` -/
+def mergeLinesD {γ : Type} (hull : List γ → Res γ) (cc : CharClass) (removeWordBreak : Option Bool)
+    (wb : Option Str) (lines : List (γ × Option Str)) : Res (γ × Str) :=
+  mergeLines hull cc (removeWordBreak.getD Generated.C16.defaultMergeRemove)
+    (wb.getD Generated.C16.defaultMergeWordBreak) lines
+
 /-! ### line_ends_with_word_break -/
 
 /-- `string.punctuation` -/
@@ -195,8 +222,8 @@ structure WordFreq where
 
 /-- `line_ends_with_word_break(curr_line, next_line, word_freq)`.
     `next = none`: no next line; `next = some none`: a next line without text.
-    `wf = none`: `word_freq` is `None` or empty.  The PMI test `joint * total / (last * next) > 1` is the
-    integer comparison `joint * total > last * next` (the denominator is positive there). -/
+    `wf = none`: `word_freq` is `None` or empty.  The PMI test `joint * total / (last * next) > p/q` is the
+    integer comparison `joint * total * q > p * (last * next)` (the denominators are positive there). -/
 def lineEndsWithWordBreak (cc : CharClass) (currText : Option Str) (next : Option (Option Str))
     (wf : Option WordFreq) : Res Bool :=
   match next with
@@ -216,7 +243,7 @@ def lineEndsWithWordBreak (cc : CharClass) (currText : Option Str) (next : Optio
         match firstWord cc nextText with
         | none => return false
         | some nextWord =>
-          if l = '-' then return true
+          if [l] = Generated.C16.wordBreakHyphen then return true
           else
             match wf with
             | none => return false
@@ -226,7 +253,8 @@ def lineEndsWithWordBreak (cc : CharClass) (currText : Option Str) (next : Optio
               let fn := w.freq nextWord
               if joint = 0 then return false
               else if fl * fn = 0 then return true
-              else if joint * w.total > fl * fn then return true
+              else if joint * w.total * Generated.C16.pmiThreshold.2 > Generated.C16.pmiThreshold.1 * (fl * fn)
+                then return true
               else if joint > fl && joint > fn then return true
               else if fn < joint && joint ≤ fl then return true
               else return false
